@@ -258,6 +258,12 @@ func runFwd(sc Scenario, tr *Trace, seed int64) {
 			defer func() { done <- struct{}{} }()
 			req.URL = &url.URL{Scheme: "http", Host: backendAddr}
 			req.RemoteAddr = peer[0]
+			if mode == "precancel" { // the request reaches the forwarder with a context that is already done (the client gave up
+				// while an earlier middleware held the request)
+				ctx, cancel := context.WithCancel(req.Context())
+				cancel()
+				req = req.WithContext(ctx)
+			}
 			sr := &statusRec{ResponseWriter: w}
 			defer func() {
 				recMu.Lock()
